@@ -176,9 +176,10 @@ def sun_zenith_angle(utc_time, lon, lat):
     lon,lat in degrees.
     The sun zenith angle returned is in degrees.
     """
-    sza = np.rad2deg(np.arccos(cos_zen(utc_time, lon, lat)))
-    if not isinstance(lon, float):
-        sza = sza.astype(lon.dtype)
+    csza = cos_zen(utc_time, lon, lat)
+    sza = np.rad2deg(np.arccos(csza))
+    if not isinstance(csza, float):
+        sza = sza.astype(csza.dtype)
     return sza
 
 
